@@ -32,7 +32,7 @@ def _payload(tag, i):
     return ('%s%d' % (tag, i)).encode('ascii')
 
 
-def _interop(sfl, cfl, ti, n_c2s, n_s2c, idle, who, connect_send):
+def _interop(sfl, cfl, ti, n_c2s, n_s2c, idle, who, connect_send, prior=0):
     k = Kernel()
     srv = (ThreadedSut if sfl == 0 else AsyncSut)(k=k, async_handlers=False, ping_interval=PI, ping_timeout=PT)
     cl = (ThreadedClientSut if cfl == 0 else AsyncClientSut)(k, ServerPeer(srv))
@@ -51,6 +51,14 @@ def _interop(sfl, cfl, ti, n_c2s, n_s2c, idle, who, connect_send):
                     k.spawn_coro(srv.srv.send(sid, 'greeting'))
                 return r
             srv.srv.handlers['connect'] = greeting_connect
+        # ``prior``: sessions this server object has already issued (other clients), so that the conversation below is its
+        # (prior+1)-th session
+        for _ in range(prior):
+            srv.open('polling')
+            k.settle()
+        if prior:
+            st['nth_session'] = prior + 1
+            del srv.events[:]
         h = cl.call('connect', 'http://h.example', transports=TRANSPORTS[ti])
         k.settle()
         if h.exc is not None or cl.state() != 'connected':
@@ -115,7 +123,25 @@ def conversation(sfl: int, cfl: int, ti: int, n_c2s: int, n_s2c: int, idle: int,
     return verdict(untraced(_interop, sfl, cfl, ti, n_c2s, n_s2c, idle, who, connect_send))
 
 
-def _backpressure(sfl, cfl, ti, n_during, who):
+def _nth(sfl, cfl, ti, pi_, who):
+    return _interop(sfl, cfl, ti, 1, 1, 0, who, False, PRIORS[pi_])
+
+
+PRIORS = (61, 62, 63, 64 * 62 + 62)
+
+
+@cond(quick=dict(NP=3, timeout=170, parts=dict(S=[0, 1])), thorough=dict(NP=4, timeout=900, parts=dict(S=[0, 1])))
+def nth_session_of_a_server(sfl: int, cfl: int, ti: int, pi_: int, who: int) -> str:
+    """
+    pre: sfl == P.S and 0 <= cfl <= 1 and 0 <= ti <= 2 and 0 <= pi_ < P.NP and 0 <= who <= 1
+    post: _ == ''
+    """
+    # the conversation is the 62nd, 63rd, 64th (thorough: also the 4031st) session the server object has issued (session ids carry a
+    # counter: every 6-bit group of it takes the values 61, 62, 63 here)
+    return verdict(untraced(_nth, sfl, cfl, ti, pi_, who))
+
+
+def _backpressure(sfl, cfl, ti, n_during, who, c0=0, c1=0):
     """WebSocket in use (directly or after the upgrade). The client stops reading for a while (network back-pressure: the
     server's write of the next frame does not complete), the server application keeps sending and then one side
     disconnects; the client resumes reading. Everything sent while connected arrives once, in order."""
@@ -134,6 +160,8 @@ def _backpressure(sfl, cfl, ti, n_during, who):
         srv.app_send(sid, _payload('s', 0))
         k.settle()
         peer.paused = True
+        peer.slow = True            # after the pause every write of the server is a scheduling point
+        k.choices = [c0, c1]        # the next two scheduling decisions among ready tasks (writer vs sender) are selectors
         for i in range(1, 1 + n_during):
             srv.app_send(sid, _payload('s', i))
             k.settle()
@@ -166,12 +194,12 @@ def _backpressure(sfl, cfl, ti, n_during, who):
 
 
 @cond(quick=dict(timeout=120), thorough=dict(timeout=300))
-def backpressure(sfl: int, cfl: int, ti: int, n_during: int, who: int) -> str:
+def backpressure(sfl: int, cfl: int, ti: int, n_during: int, who: int, c0: int, c1: int) -> str:
     """
-    pre: 0 <= sfl <= 1 and 0 <= cfl <= 1 and 1 <= ti <= 2 and 0 <= n_during <= 5 and 0 <= who <= 1
+    pre: 0 <= sfl <= 1 and 0 <= cfl <= 1 and 1 <= ti <= 2 and 0 <= n_during <= 5 and 0 <= who <= 1 and 0 <= c0 <= 1 and 0 <= c1 <= 1
     post: _ == ''
     """
-    return verdict(untraced(_backpressure, sfl, cfl, ti, n_during, who))
+    return verdict(untraced(_backpressure, sfl, cfl, ti, n_during, who, c0, c1))
 
 
 def _reuse(sfl, cfl, busy, n2):
@@ -190,7 +218,10 @@ def _reuse(sfl, cfl, busy, n2):
             return fail(PROP, 'CONNECT', 'connect: %r state %s' % (h.exc, cl.state()), **st)
         if busy:
             sp.hold_posts = True
+        sid1 = srv.sids()[0]
         cl.call('send', 'first')
+        k.settle()
+        cl.call('send', 'second')
         k.settle()
         cl.call('disconnect')
         k.settle()
@@ -200,6 +231,14 @@ def _reuse(sfl, cfl, busy, n2):
         dc = [e for e in cl.events if e[0] == 'disconnect']
         if len(dc) != 1 or cl.state() != 'disconnected':
             return fail(PROP, 'DISCONNECT-BOTH-SIDES', 'first connection: client saw %r, state %s' % (dc, cl.state()), **st)
+        got1 = [a for kk, s_, a in srv.events if kk == 'message' and s_ == sid1]
+        if got1 != ['first', 'second']:
+            return fail(PROP, 'CLIENT-TO-SERVER', 'the client sent "first" and "second" and then disconnected%s: the server received %r' % (
+                ' (the POST of "first" was still in flight at that moment)' if busy else '', got1), **st)
+        ds1 = [a for kk, s_, a in srv.events if kk == 'disconnect' and s_ == sid1]
+        if len(ds1) != 1:
+            return fail(PROP, 'DISCONNECT-BOTH-SIDES', 'the client disconnected%s: the server observed %r' % (
+                ' while a POST was in flight' if busy else '', ds1), **st)
         n_srv, n_cl = len(srv.events), len(cl.events)
         h = cl.call('connect', 'http://h.example', transports=['polling'])
         k.settle()
